@@ -87,7 +87,9 @@ def entryOf (s : String) : R Entry :=
   match s with
   | "rotation_matrix" => pure .rotationMatrix | "standard_rotation" => pure .standardRotation
   | "elliptic" => pure .elliptic | "sl2_iso" => pure .sl2Iso | "from_angle" => pure .fromAngle
-  | "regular_polygon" => pure .regularPolygon | "coxeter_rep" => pure .coxeterRep
+  | "regular_polygon" => pure .regularPolygon
+  | "standard_loxodromic" => pure .standardLoxodromic | "point_along" => pure .pointAlong
+  | "regular_polygon_angle" => pure .regularPolygonAngle | "coxeter_rep" => pure .coxeterRep
   | "array_like" => pure .arrayLike | "zeros_float" => pure .zerosFloat
   | "identity_float" => pure .identityFloat | "point_hyperboloid" => pure .pointHyperboloid
   | "point_affine_hyperboloid" => pure .pointFromAffineHyperboloid
